@@ -399,7 +399,99 @@ def r17_4(prog: Program, rep):
            "", uwt.node.lineno)
 
 
+FOLLOWING_PREDICATES = {"os.path.isdir", "os.path.isfile", "os.path.exists", "os.stat", "os.path.getsize", "os.access",
+                        "os.path.samefile", "os.listdir"}
+
+
+def r17_5(prog: Program, rep):
+    """In the helpers that replace what is at a work-tree path, the decision about what is there comes from the lstat
+    result they are handed, never from a predicate that follows symlinks."""
+    m = prog.module("dulwich/index.py")
+    n = 0
+    for q, f in m.funcs.items():
+        ps = [a.arg for a in f.node.args.args]
+        stat_params = [p for p in ps if p.endswith("_stat") or p == "current_stat"]
+        path_params = [p for p in ps if p in ("full_path", "target_path", "path_fs")]
+        if not stat_params or not path_params or "#" in q:
+            continue
+        n += 1
+        bad = []
+        for c in ast.walk(f.node):
+            if isinstance(c, ast.Call) and dotted(c.func) in FOLLOWING_PREDICATES and c.args \
+                    and any(isinstance(x, ast.Name) and x.id in path_params for x in ast.walk(c.args[0])):
+                # os.listdir of a path already established as a directory by the lstat test is fine
+                if dotted(c.func) == "os.listdir":
+                    continue
+                bad.append(c)
+        rep.ob("R17.5", m.rel, q, "what is at the path is decided from the lstat result, not by following symlinks", not bad,
+               (f"`{norm(bad[0])}` follows a symlink at the leaf: a stale symlink to a directory is taken for a directory and "
+                f"the checkout writes through it") if bad else "", bad[0].lineno if bad else f.node.lineno)
+    if n < 3:
+        raise AnalysisError(f"expected >= 3 transition helpers taking (path, lstat result), found {n}")
+
+
+def r17_6(prog: Program, rep):
+    """verify_leading_dirs may skip the lstat of leading components only for the *leading run* of components that
+    equal the already verified chain.  Accepted idioms for computing the skip count: an index-aligned while loop, a
+    for/zip (or enumerate) loop that breaks at the first mismatch, itertools.takewhile.  Counting matches at any
+    position (sum/len over a filtered zip) is the defect; any other shape is an analysis error, not a verdict."""
+    m = prog.module("dulwich/index.py")
+    f = m.funcs.get("verify_leading_dirs")
+    if f is None:
+        raise AnalysisError("verify_leading_dirs not found")
+    # the skip count: the name used as lower slice bound of the loop that lstat()s (`components[common:]`)
+    skip = None
+    for loop in [x for x in ast.walk(f.node) if isinstance(x, ast.For)]:
+        if any(isinstance(c, ast.Call) and dotted(c.func) == "os.lstat" for c in ast.walk(loop)) and isinstance(loop.iter, ast.Subscript) \
+                and isinstance(loop.iter.slice, ast.Slice) and isinstance(loop.iter.slice.lower, ast.Name):
+            skip = loop.iter.slice.lower.id
+    if skip is None:
+        raise AnalysisError("verify_leading_dirs: the loop that lstat()s components[<skip>:] was not found")
+    assigns = [s_ for s_ in ast.walk(f.node) if isinstance(s_, (ast.Assign, ast.AugAssign))
+               and isinstance((s_.targets[0] if isinstance(s_, ast.Assign) else s_.target), ast.Name)
+               and (s_.targets[0] if isinstance(s_, ast.Assign) else s_.target).id == skip]
+    verdict = None
+    why = ""
+    for a in assigns:
+        if isinstance(a, ast.Assign) and isinstance(a.value, ast.Constant) and a.value.value == 0:
+            continue
+        par = m.parents.get(a)
+        if isinstance(a, ast.AugAssign) and isinstance(a.op, ast.Add):
+            # inside `while ... A[skip] == B[skip] ...:` (index aligned, stops at the first mismatch)
+            if isinstance(par, ast.While) and any(
+                    isinstance(c, ast.Compare) and isinstance(c.ops[0], ast.Eq) and all(
+                        isinstance(side, ast.Subscript) and isinstance(side.slice, ast.Name) and side.slice.id == skip
+                        for side in (c.left, c.comparators[0])) for c in ast.walk(par.test)):
+                verdict = True if verdict is None else verdict
+                continue
+            # inside `for a, b in zip(...): if a != b: break ; skip += 1`
+            if isinstance(par, ast.For) and "zip(" in norm(par.iter) and any(isinstance(x, ast.Break) for x in ast.walk(par)):
+                verdict = True if verdict is None else verdict
+                continue
+        if isinstance(a, ast.Assign):
+            v = norm(a.value)
+            if "takewhile(" in v:
+                verdict = True if verdict is None else verdict
+                continue
+            if ("sum(" in v or "len(" in v) and "zip(" in v and " if " in v:
+                verdict = False
+                why = f"`{norm(a, 90)}` counts matching components at ANY position"
+                continue
+        raise AnalysisError(f"verify_leading_dirs: skip count `{skip}` is computed by an idiom this rule does not know: {norm(a, 80)}")
+    if verdict is None:
+        raise AnalysisError("verify_leading_dirs: no computation of the skip count found")
+    rep.ob("R17.6", m.rel, f.qual, f"lstat is skipped only for the leading run of already verified components (`{skip}`)", verdict,
+           why + ": a component that matches the cache at a later position is skipped although an earlier one differs, so a "
+           "symlinked leading directory is never lstat()ed", f.node.lineno)
+    # what is skipped is also what is dropped from the cache, and every non-skipped component is lstat()ed before use
+    src = norm(f.node, 100000)
+    rep.ob("R17.6", m.rel, f.qual, "stale cache entries beyond the common run are dropped", f"del safe_prefix[{skip}:]" in src, "", f.node.lineno)
+    rep.ob("R17.6", m.rel, f.qual, "a symlinked component raises InvalidPathError", "S_ISLNK" in src and "raise InvalidPathError" in src, "", f.node.lineno)
+
+
 def run(prog: Program, rep, tier="quick"):
+    rep.rule("R17.6", "verify_leading_dirs skips the lstat only for the leading run of verified components (accepted idioms enumerated)")
+    rep.rule("R17.5", "transition helpers decide on the lstat result they are given; no symlink-following predicate on the leaf path")
     rep.rule("R17.1", "TAINT: fs paths built from tree paths / index keys reach mutating sinks only behind validate_path AND "
                       "verify_leading_dirs on the same path (sinks attributed by reaching definitions; helpers summarised)")
     rep.rule("R17.2", "build_file_from_blob: symlink test/removal precedes the write-mode open")
@@ -416,6 +508,10 @@ def run(prog: Program, rep, tier="quick"):
     r17_2(prog, rep)
     r17_3(prog, rep)
     r17_4(prog, rep)
+    r17_5(prog, rep)
+    r17_6(prog, rep)
+    from sa.common import alias_guard
+    alias_guard(prog, rep, "R17.1", {"validate_path", "verify_leading_dirs", "_tree_to_fs_path"})
     rep.floor("R17.1", 6)
     rep.floor("R17.2", 1)
     rep.floor("R17.4", 4)
